@@ -264,5 +264,5 @@ class MultipartDecoder:
 def safe_decode(src: Union[bytes, bytearray], charset: str) -> str:
     try:
         return src.decode(charset)
-    except (UnicodeError, LookupError):
+    except (ValueError, LookupError):  # UnicodeError is a ValueError
         return src.decode("latin-1")
